@@ -170,7 +170,19 @@ def finite_scope(key, label, path, tier='quick', scopes=(2, 4, 7)):
                 pre = decode_prestate(m, res.entry_env, res.entry_heap_consts)
             except Exception as e:
                 pre = dict(error='decode failed: %s' % e)
-            return dict(status='sat', scope=N, model=verify.model_text(m, 4000), prestate=pre)
+            out = dict(status='sat', scope=N, model=verify.model_text(m, 4000), prestate=pre)
+            # a finite-scope counter-model is only a candidate (the universals were instantiated over a small scope):
+            # it counts when the REAL code reproduces it, so hand its decoded entry state to the native replay
+            try:
+                ob.model = m
+                spec = replay_spec(ob)
+                if spec is not None:
+                    out['replay'] = spec
+                else:
+                    out['replay_why'] = getattr(ob, 'replay_why', None)
+            except Exception as e:
+                out['replay_error'] = str(e)[:200]
+            return out
         last = 'unsat' if r == z3.unsat else 'unknown'
         if r != z3.unsat:
             break
@@ -303,6 +315,9 @@ class _NoDecode(Exception):
     pass
 
 
+_PLACEHOLDERS = []
+
+
 def _py_str(v):
     """z3 string value -> python str (z3 prints non-printable characters as \\u{..} escapes)"""
     import re as _re
@@ -334,7 +349,14 @@ def _decode(model, val_t, z, depth=0):
         return {'__bytes__': [ord(ch) for ch in _py_str(ev(z))]}
     if k == 'union':
         if not val_t.args:
-            raise _NoDecode('Any')
+            # Any: plain data if the model picked a plain constructor
+            for tst, acc, conv in ((T.PyVal.is_none, None, lambda v: None),
+                                   (T.PyVal.is_b, T.PyVal.b_v, lambda v: z3.is_true(v)),
+                                   (T.PyVal.is_i, T.PyVal.i_v, lambda v: v.as_long()),
+                                   (T.PyVal.is_s, T.PyVal.s_v, lambda v: _py_str(v))):
+                if z3.is_true(ev(tst(z))):
+                    return conv(ev(acc(z))) if acc is not None else None
+            raise _NoDecode('Any holding an object')
         for a in val_t.args:
             if a.kind == 'none':
                 if z3.is_true(ev(T.PyVal.is_none(z))):
@@ -346,6 +368,14 @@ def _decode(model, val_t, z, depth=0):
                     if sum(1 for b in val_t.args if b.is_reflike) > 1:
                         raise _NoDecode('several object alternatives')
                 return _decode(model, a, T.unbox(a, z), depth)
+        # the model chose an alternative the declared union does not name (an unconstrained slot): decode the boxed
+        # value by its own constructor when it is plain data
+        for tst, acc, conv in ((T.PyVal.is_none, None, lambda v: None),
+                               (T.PyVal.is_b, T.PyVal.b_v, lambda v: z3.is_true(v)),
+                               (T.PyVal.is_i, T.PyVal.i_v, lambda v: v.as_long()),
+                               (T.PyVal.is_s, T.PyVal.s_v, lambda v: _py_str(v))):
+            if z3.is_true(ev(tst(z))):
+                return conv(ev(acc(z))) if acc is not None else None
         raise _NoDecode('union alternative')
     if k == 'list':
         r = ev(z)
@@ -364,11 +394,53 @@ def _decode(model, val_t, z, depth=0):
     if k == 'tuple':
         dt = T.sort_of(val_t)
         return {'__tuple__': [_decode(model, a, dt.accessor(0, i)(z), depth + 1) for i, a in enumerate(val_t.args)]}
+    if k == 'set':
+        r = ev(z)
+        if r.as_long() == 0:
+            return None
+        et = val_t.args[0]
+        if et.kind not in ('int', 'str'):
+            raise _NoDecode('set of %s' % et.kind)
+        es = T.sort_of(et)
+        arr = ev(z3.Select(_h0('$set:' + T.sort_name(es), z3.ArraySort(z3.IntSort(), z3.ArraySort(es, z3.BoolSort()))), r))
+        # the model value of a set is a chain of stores over a constant array: collect the keys stored as True
+        members, seen = [], set()
+        a = arr
+        while z3.is_app(a) and a.decl().kind() == z3.Z3_OP_STORE:
+            kz, vz = a.arg(1), a.arg(2)
+            key = _decode(model, et, kz, depth + 1)
+            if key not in seen:
+                seen.add(key)
+                if z3.is_true(vz):
+                    members.append(key)
+            a = a.arg(0)
+        if not (z3.is_app(a) and a.decl().kind() == z3.Z3_OP_CONST_ARRAY and z3.is_false(a.arg(0))):
+            raise _NoDecode('set model is not a finite store chain')
+        return {'__set__': members}
+    if k == 'dict':
+        r = ev(z)
+        if r.as_long() == 0:
+            return None
+        kt, vt = val_t.args
+        if kt.kind == 'unknown':
+            raise _NoDecode('untyped dict')
+        ks, vs = T.sort_of(kt), T.sort_of(vt)
+        I = z3.IntSort()
+        n = ev(z3.Select(_h0('$dlen', z3.ArraySort(I, I)), r)).as_long()
+        if n < 0 or n > 12:
+            raise _NoDecode('dict length %d' % n)
+        keys = z3.Select(_h0('$dkeys:' + T.sort_name(ks), z3.ArraySort(I, z3.ArraySort(I, ks))), r)
+        mp = z3.Select(_h0('$dmap:' + T.sort_name(ks) + ':' + T.sort_name(vs), z3.ArraySort(I, z3.ArraySort(ks, vs))), r)
+        items = []
+        for i in range(n):
+            kz = z3.Select(keys, i)
+            items.append([_decode(model, kt, kz, depth + 1), _decode(model, vt, z3.Select(mp, kz), depth + 1)])
+        return {'__dict__': items}
     if k == 'ref':
         r = ev(z)
         if r.as_long() == 0:
             return None
-        if depth >= 2:
+        if depth >= 4:
             raise _NoDecode('object nesting')
         ci = R.CLASSES.get(val_t.name)
         if ci is None or not ci.module:
@@ -382,7 +454,16 @@ def _decode(model, val_t, z, depth=0):
                 if f in c2.ghost or f in fields:
                     continue
                 fz = z3.Select(_h0('%s.%s' % (cn, f), z3.ArraySort(z3.IntSort(), T.sort_of(ft))), r)
-                fields[f] = _decode(model, ft, fz, depth + 1)
+                try:
+                    fields[f] = _decode(model, ft, fz, depth + 1)
+                except _NoDecode:
+                    if depth >= 1 or (ft.kind == 'union' and not ft.args):
+                        # an unconstrained slot holding an arbitrary object (typed Any, or deep inside the state):
+                        # replaced by None -- the replay only counts if the REAL run then shows the predicted outcome
+                        fields[f] = None
+                        _PLACEHOLDERS.append('%s.%s' % (cn, f))
+                    else:
+                        raise
         return {'__object__': val_t.name, 'module': ci.module, 'fields': fields}
     raise _NoDecode(k)
 
@@ -392,18 +473,23 @@ def replay_spec(ob):
     counter-model predicts; None when the entry state does not decode into plain data."""
     from . import types as T
     ent = getattr(ob, 'entry', None)
+    ob.replay_why = None
     if ent is None or ob.model is None or ob.outcome is None:
+        ob.replay_why = 'no entry state / model / outcome recorded for this obligation'
         return None
     fn, c = ent['fn'], ent['contract']
     if getattr(c, 'yields', False):
+        ob.replay_why = 'the function yields to other greenlets (its result depends on collaborators)'
         return None
     args = []
+    del _PLACEHOLDERS[:]
     try:
         for name, v in ent['params']:
             if v.t.kind == 'typeobj':
                 args.append((name, {'__class__': fn.cls}))
                 continue
-            if v.t.kind in ('fn', 'xtuple', 'kwargs', 'seq', 'setv', 'set', 'dict', 'mapv'):
+            if v.t.kind in ('fn', 'xtuple', 'kwargs', 'seq', 'setv', 'mapv'):
+                ob.replay_why = 'parameter %s of kind %s' % (name, v.t.kind)
                 return None
             args.append((name, _decode(ob.model, v.t, v.z)))
         kind, what = ob.outcome
@@ -414,9 +500,12 @@ def replay_spec(ob):
                 predicted = {'outcome': 'returned', 'value': _decode(ob.model, what.t, what.z)}
             except _NoDecode:
                 predicted = {'outcome': 'returned'}
-    except _NoDecode:
+    except _NoDecode as e:
+        ob.replay_why = 'not plain data: %s' % e
         return None
-    except Exception:
+    except Exception as e:
+        ob.replay_why = 'decoding failed: %s' % e
         return None
     return dict(module=fn.module, qual=c.qual, cls=fn.cls, args=args, predicted=predicted,
+                fields_replaced_by_none=sorted(set(_PLACEHOLDERS)),
                 obligation_kind=('raises-only' if ob.label.startswith('raises-only') else 'post'))
